@@ -632,8 +632,20 @@ func ShapeWorker(w *pool.W, shard, n int, tier string, skip map[string]bool) err
 	}
 	var mine []pr
 	idx := 0
+	var all [][2]*space.Ty
 	for _, s := range types {
 		for _, t := range types {
+			all = append(all, [2]*space.Ty{s, t})
+		}
+	}
+	// exotic spellings (function types, directional channels, method interfaces, tagged fields): identical pairs and
+	// pairs with int are enough to make every shape render and zero-test them
+	for _, x := range space.Types(u.ExoticLeaves(), 1) {
+		all = append(all, [2]*space.Ty{x, x}, [2]*space.Ty{x, tInt}, [2]*space.Ty{tInt, x})
+	}
+	for _, st := range all {
+		{
+			s, t := st[0], st[1]
 			idx++
 			if idx%n != shard {
 				continue
